@@ -51,7 +51,7 @@ def run_history(rng, n_ops, identities, clock):
     for _ in range(n_ops):
         if rng.random() < 0.25:
             clock.advance(rng.choice([0, 0, 0, 1, 2, 3600]))
-        kind = rng.choice(["sid", "sid", "multi", "typed", "bulk", "bulk", "bytes", "bulk-same", "node", "jump"])
+        kind = rng.choice(["sid", "sid", "multi", "typed", "bulk", "bulk", "bytes", "bulk-same", "node", "jump", "bulk-both", "bulk-both"])
         if kind == "node":
             # building other library objects in the same process (a node, its configuration) must not disturb the counter
             from bromelia.setup import Diameter
@@ -91,6 +91,33 @@ def run_history(rng, n_ops, identities, clock):
             msgs[i] = (m, ident)
             if m.header.get_length() != len(m.dump()):
                 gen.append(("LENGTH", ident, "Message Length %d != size %d after bulk update" % (m.header.get_length(), len(m.dump()))))
+        elif kind == "bulk-both":
+            # a bulk update that names the Session-Id as well as the origin, in either key order: the Session-Id given wins
+            if not msgs:
+                m = DiameterMessage(DiameterHeader())
+                m.append(SessionIdAVP(b"fixed;1;1"))
+                m.append(OriginHostAVP("fixed"))
+                msgs.append((m, "fixed"))
+            i = rng.randrange(len(msgs))
+            m, prev = msgs[i]
+            ident2 = rng.choice(identities)
+            as_bytes = rng.random() < 0.5
+            sidval = (ident2 + ";5;5").encode() if as_bytes else ident2
+            upd = {"session_id": sidval, "origin_host": ident}
+            if rng.random() < 0.5:
+                upd = dict(reversed(list(upd.items())))
+            m.update_avps(upd)
+            msgs[i] = (m, ident)
+            if m.header.get_length() != len(m.dump()):
+                gen.append(("LENGTH", ident, "Message Length %d != size %d after bulk update" % (m.header.get_length(), len(m.dump()))))
+            if as_bytes:
+                ops.append(("bulk-both-bytes:" + ",".join(upd), ident2))
+                if m.session_id_avp.data != sidval:
+                    gen.append(("BYTES", ident2 + ";5;5 (bulk update, keys %s)" % ",".join(upd), m.session_id_avp.data))
+                continue
+            ident = ident2
+            kind = "bulk-both:" + ",".join(upd)
+            d = m.session_id_avp.data.decode()
         else:
             raw = (ident + ";7;7").encode()
             d2 = SessionIdAVP(raw).data
@@ -125,7 +152,7 @@ def explore(chk, rng, n_hist, tag):
                 chk.corr_break("session-id-sequence", inp, texts[k] if k < len(texts) else None, model[k] if k < len(model) else None)
             for kind, ident, d in gen:
                 if kind == "BYTES":
-                    chk.violation("a Session-Id supplied as bytes was altered", inp, ident + ";7;7", str(d))
+                    chk.violation("a Session-Id supplied as bytes was altered", inp, ident if ";5;5" in ident else ident + ";7;7", str(d))
                     continue
                 if kind == "LENGTH":
                     chk.violation("bulk origin update left a wrong Message Length", inp, "length = size", d)
